@@ -6,6 +6,7 @@ Options (dict `o`, all chosen by the workload and recorded in the witness):
   clef      "attr" | "child"                    clef.shape/clef.line on staffDef or a <clef> child
   ppq       None | int                          @ppq on every staffDef
   durppq    bool                                @dur.ppq on every note/chord/rest/space (needs `unit`)
+  grace_durppq bool                             grace notes carry @dur.ppq too (they still take no time)
   unit      int                                 divisions per quarter used for dur.ppq values
   beams     bool                                wrap runs of short notes in <beam>
   accid     "attr" | "ges" | "child" | "mix"    how alterations are written
@@ -96,10 +97,12 @@ class _W:
 
     # ------------------------------------------------------------ events
     def ppq_of(self, ev, nominal):
-        if not self.o.get("durppq") or ev["k"] == "g":
+        if not self.o.get("durppq") or (ev["k"] == "g" and not self.o.get("grace_durppq")):
             return None
         v = nominal if ev["k"] == "m" else N.value(ev)
         x = v * self.o["unit"]
+        if ev["k"] == "g" and x.denominator != 1:
+            return None
         assert x.denominator == 1, (ev, self.o["unit"])
         return int(x)
 
